@@ -7,7 +7,10 @@ Tie (every run):
     values written == Lean decoder, leading == trailing == payload length;
   * for every CCCC format x {binary, ASCII}: generated containers and the shipped fixture files are written by the
     real Stream with RECORDING record classes substituted through the public ``Stream._fileModes`` table;
-    (i) the (kind, value) trace replayed through the Lean encoder == the real file, byte for byte,
+    (i) the (kind, value) trace replayed through the Lean encoder == the real file, byte for byte; the container's
+        values (no record structure) written through the format's Lean SCHEMA (Schema.geodst, .dif3d, .labels, .pwdint,
+        .rtflux, .rzflux, .fixsrc, .nhflux, .pmatrx, .dlayxs, .isotxs, .compxs: records, fields, counts and loop bounds
+        computed from the header values) == the real file, byte for byte, binary and ASCII,
     (ii) the reader's trace == the writer's trace (readWrite() is an `RW` program on that input),
     (iii) the data read == the data written (reals to single precision where the format stores singles),
     (iv) writing what was read reproduces the file; fixtures are re-written byte-identically; frame counts hold on
@@ -32,14 +35,19 @@ from harness.common import Failure, lean_run
 PROP_MODULES = ["ArmiVerif.Props.C09"]
 PARTIAL = ("double->single rounding of rwFloat and the text<->double conversion of ASCII reals are parameters (bit "
            "patterns are opaque in the model; the ASCII real *writer* is modelled exactly and compared byte for byte; the "
-           "ASCII real reader enters file_roundtrip_ascii only through the hypothesis float(format(x,'+.16E')) == x, "
-           "which every run discharges by measurement on the host Python); which records a format's readWrite() emits "
-           "is not modelled per format - the hypothesis 'readWrite is an RW program' is what the reader-trace == "
-           "writer-trace check establishes on every container; DLAYXS's reader-side use of the record count (label "
-           "length, trailing filler) is outside the RW form and checked by the tie only; generators stay inside what "
-           "the readers accept: ISOTXS/GAMISO sub-blocking 1 (NSBLOK = 2 is finding isotxs-scatter-subblocking), "
-           "Legendre blocks of order <= 1, LABELS without control-rod/burn-up records and RTFLUX NDIM >= 2 (both "
-           "NotImplemented in armi)")
+           "ASCII real reader enters the ASCII theorems only through the hypothesis float(format(x,'+.16E')) == x, "
+           "which every run discharges by measurement on the host Python); every format's readWrite() has a record "
+           "schema in the model (Schema.* in Model/Cccc.lean: which records exist, their fields, every count and loop "
+           "bound as a function of the header values) whose file is compared byte for byte with the real writer's on "
+           "every container; that the real READER follows the same schema is what the reader-trace == writer-trace "
+           "check establishes; how a container's attributes map onto the value sequence (group reversal of ATFLUX/"
+           "NAFLUX, sparse-matrix flattening of COMPXS) is judged by the oracle only; DLAYXS's reader-side use of the "
+           "record count (label length, trailing filler) enters the schema as values that are not in the file; "
+           "branches that raise NotImplementedError are not in the schemas and generators stay inside what the "
+           "readers accept: ISOTXS/GAMISO sub-blocking 1 (NSBLOK = 2 is finding isotxs-scatter-subblocking), Legendre "
+           "blocks of order <= 1, PMATRX production-matrix orders <= 2 (3 is finding pmatrx-production-matrix-order-3), "
+           "COMPXS without file-wide chi / delayed families (findings compxs-2d-record-*), LABELS without "
+           "control-rod/burn-up records and RTFLUX NDIM >= 2 (NotImplemented in armi)")
 ASSUMPTIONS = [
     "FloatParseSpec (hypothesis of file_roundtrip_ascii_partial): float(' {:+.16E}'.format(x)) == x for every finite "
     "double; discharged by measurement on every run (coverage.ascii_real_hypothesis)",
@@ -241,14 +249,19 @@ def record_request(fields, ascii_):
     return ("reca " if ascii_ else "recb ") + (",".join(field_token(f) for f in fields) or "-")
 
 
-def model_bytes(traces_ascii):
-    """[(Trace, ascii?)] -> [bytes or None(reject)] : each trace replayed through the Lean encoder."""
+def model_bytes(traces_ascii, extra_requests=(), extra_out=None):
+    """[(Trace, ascii?)] -> [bytes or None(reject)] : each trace replayed through the Lean encoder. `extra_requests`
+    ride along in the same driver process (their responses are appended to `extra_out`)."""
     req, owner = [], []
     for n, (tr, asc) in enumerate(traces_ascii):
         for fields, _cnt in tr.records():
             req.append(record_request(fields, asc))
             owner.append(n)
-    resp = lean_run("Cccc", req) if req else []
+    extra_requests = list(extra_requests)
+    resp = lean_run("Cccc", req + extra_requests, timeout=900) if req or extra_requests else []
+    if extra_out is not None:
+        extra_out.extend(resp[len(req):])
+    resp = resp[:len(req)]
     out = [[] for _ in traces_ascii]
     for o, r in zip(owner, resp):
         out[o].append(r)
@@ -645,6 +658,79 @@ def run_helpers(ctx):
     for k in keys:
         req.append("implicit " + k.encode().hex()); impl.append("T" if res[k][0] == "i" else "F"); cases.append(("implicit", k))
 
+    # compxs._flattenScatteringVector (writer side of a COMPXS scatter column) vs Cccc.bandWrite: the column band
+    # group-ndn .. group+nup, reversed  ==  bandWrite col (jup := group+nup+1) (jband := nup+1+ndn)
+    from scipy import sparse as _sp
+
+    from armi.nuclearDataIO.cccc import compxs as _compxs
+    from armi.nuclearDataIO.cccc import isotxs as _isotxs
+    from armi.nuclearDataIO.cccc import nhflux as _nhflux
+    from armi.nuclearDataIO.cccc import rtflux as _rtflux
+
+    # (private helpers: when a rewrite of the package has removed one, its function-level tie is skipped - the
+    # end-to-end streams still cover the behaviour)
+    flatten = getattr(_compxs, "_flattenScatteringVector", None)
+    if flatten is None:
+        ctx.count("function-level tie skipped: compxs._flattenScatteringVector not present")
+    for ng in range(1, ctx.pick(7, 10)) if flatten else ():
+        col = _sp.csc_matrix(np.arange(ng, dtype=float).reshape((ng, 1)) + 1.0)
+        for group in range(ng):
+            for ndn in range(0, group + 1):
+                for nup in range(0, ng - group):
+                    got = flatten(col, group, nup, ndn)
+                    req.append(f"bandw {ng} {group + nup + 1} {nup + 1 + ndn}")
+                    impl.append("[" + ",".join(str(int(x) - 1) for x in got) + "]")
+                    cases.append(("compxs-flatten", ng, group, nup, ndn))
+                    # reader side: the indices it pairs the values with (inline in _rwScatteringMatrix)
+                    req.append(f"band {group + nup + 1} {nup + 1 + ndn}")
+                    impl.append("[" + ",".join(map(str, reversed(range(group - ndn, group + nup + 1)))) + "]")
+                    cases.append(("compxs-indices", ng, group, nup, ndn))
+    # adjoint files: container group index of file position g (ATFLUX, NAFLUX) vs Cccc.revGroup; forward files: identity
+    for ng in list(range(0, 8)) + [33, 230]:
+        at = _rtflux.AtfluxStream(_rtflux.RtfluxData(), "unused", "rb")
+        at._metadata["NGROUP"] = ng
+        na = _nhflux.NafluxStream(_nhflux.NHFLUX(), "unused", "rb")
+        na._metadata["ngroup"] = ng
+        for g in sorted(set(list(range(min(ng, 6))) + [max(ng - 1, 0)])):
+            for obj, meth in ((at, "getEnergyGroupIndex"), (na, "_getEnergyGroupIndex")):
+                if not hasattr(obj, meth):
+                    ctx.count(f"function-level tie skipped: {meth} not present")
+                    continue
+                req.append(f"revg {ng} {g}"); impl.append(str(getattr(obj, meth)(g))); cases.append((meth, ng, g))
+    # ISOTXS bookkeeping: records per nuclide and the record offsets written into the 2D record
+    import random as _random
+
+    have = all(hasattr(_isotxs.IsotxsIO, m) for m in ("_computeNumIsotxsRecords", "_computeNuclideRecordOffset"))
+    if not have:
+        ctx.count("function-level tie skipped: IsotxsIO._computeNuclideRecordOffset not present")
+    for t in range(ctx.pick(6, 40)) if have else ():
+        lib = gen_isotxs(_random.Random(ctx.rng.getrandbits(32)), False, t)
+        io_ = _isotxs.IsotxsIO("unused", lib, "wb", lambda k_: None)
+        counts = []
+        for nuc in lib.nuclides:
+            nmd = nuc.isotxsMetadata
+            n_ = io_._computeNumIsotxsRecords(nuc)
+            counts.append(n_)
+            req.append(f"nrec {int(nmd['chiFlag'])} [" + ",".join(str(int(o)) for o in nmd["ords"]) + "]")
+            impl.append(str(n_)); cases.append(("isotxs-num-records", t, nuc.nucLabel))
+        req.append("offs [" + ",".join(map(str, counts)) + "]")
+        impl.append("[" + ",".join(str(int(x)) for x in io_._computeNuclideRecordOffset()) + "]")
+        cases.append(("isotxs-record-offsets", t, tuple(counts)))
+    ctx.count("getBlockBandwidth / _rwMatrix / implicit typing / COMPXS column band / group reversal / ISOTXS record "
+              "offsets: function-level evaluations", len(req))
+
+    # the accepted domain of the ASCII integer field (asciiInt.ok, decidable) vs "the real writer's text is 11 wide"
+    probe = [0, 1, -1, 999999999, -999999999, 1000000000, -1000000000, 999999998, 10 ** 10, -10 ** 12, 2 ** 31 - 1, -2 ** 31]
+    probe += [ctx.rng.randint(-2 * 10 ** 9, 2 * 10 ** 9) for _ in range(ctx.pick(100, 1000))]
+    probe += [s_ * (10 ** 9 + d) for s_ in (1, -1) for d in range(-3, 4)]
+    for v_ in probe:
+        buf = io.StringIO()
+        with cccc.AsciiRecordWriter(buf) as w:
+            w.rwInt(v_)
+        # the record is: count field (11), the integer's field, count field (11), newline
+        req.append(f"adom i {v_}"); impl.append("T" if len(buf.getvalue()) - 23 == 11 else "F")
+        cases.append(("adom-int", v_))
+
     model = lean_run("Cccc", req)
     ctx.compare("Model/Cccc.lean helpers vs cccc.py", cases, model, impl)
     ctx.evaluations += len(req)
@@ -719,14 +805,37 @@ def changed_by_writer(before, after, path=""):
     return None if before == after else (path, before, after)
 
 
-def first_diff(a, b, path=""):
+# slots a reader fills with defaults when the record does not hold them (isotxs._rw5DRecord: micros.getDefaultXs, or the
+# file-wide chi for a fissile nuclide without its own); everywhere else an empty slot must come back empty
+_DEFAULT_FILLED = {"fission", "neutronsPerFission", "chi", "nalph", "np", "n2n", "nd", "nt", "strpd"}
+
+
+def _is_empty(v):
+    return v is None or v == [] or v == {}
+
+
+def _all_zero(v):
+    if isinstance(v, list):
+        return all(_all_zero(x) for x in v)
+    return isinstance(v, (int, float)) and v == 0
+
+
+def first_diff(a, b, path="", defaults_ok=False):
+    """first difference between two canonical forms; with defaults_ok an empty slot of `a` may come back as the
+    reader's default (zeros) in the slots named in _DEFAULT_FILLED"""
+    if defaults_ok and _is_empty(a) and not _is_empty(b):
+        last = path.rsplit("/", 1)[-1]
+        parent = path.rsplit("/", 2)[-2] if path.count("/") >= 2 else ""
+        if parent in ("micros", "gammaXS") and last in _DEFAULT_FILLED and (last == "chi" or _all_zero(b)):
+            return None
+        return path, a, b
     if type(a) != type(b) and not (isinstance(a, (int, float)) and isinstance(b, (int, float))):
         return path, a, b
     if isinstance(a, dict):
         for k in sorted(set(a) | set(b)):
             if k not in a or k not in b:
                 return path + "/" + k, a.get(k, "<absent>"), b.get(k, "<absent>")
-            d = first_diff(a[k], b[k], path + "/" + k)
+            d = first_diff(a[k], b[k], path + "/" + k, defaults_ok)
             if d:
                 return d
         return None
@@ -734,7 +843,7 @@ def first_diff(a, b, path=""):
         if len(a) != len(b):
             return path + "/len", len(a), len(b)
         for i, (x, y) in enumerate(zip(a, b)):
-            d = first_diff(x, y, f"{path}[{i}]")
+            d = first_diff(x, y, f"{path}[{i}]", defaults_ok)
             if d:
                 return d
         return None
@@ -784,6 +893,10 @@ def gen_geodst(rng, asc, idx):
     nrass = [0, 1, 2][(idx // 2) % 3]
     nci, ncj, nck = rng.randint(1, 4), rng.randint(1, 3), rng.randint(1, 3)
     ni, nj, nk = nci + rng.randint(0, 2), ncj + rng.randint(0, 2), nck + rng.randint(0, 2)
+    if idx % 3 == 0:
+        # per-dimension counts pairwise distinct (coarse and fine): a bound taken from the wrong dimension shows
+        nci, ncj, nck = rng.sample([1, 2, 3, 4], 3)
+        ni, nj, nk = (n + d for n, d in zip((nci, ncj, nck), rng.sample([4, 5, 6], 3)))
     for k in geodst.FILE_SPEC_1D_KEYS:
         md[k] = gi(rng, asc)
     md["IGOM"], md["NRASS"] = igom, nrass
@@ -827,16 +940,34 @@ def gen_dif3d(rng, asc, idx):
         md[k] = gi(rng, asc)
     for k in dif3d.FILE_SPEC_2D_PARAMS:
         d.twoD[k] = gi(rng, asc)
-    numorp = [0, 3, 0, 1][idx % 4] if idx < 4 else rng.randint(0, 5)
-    ncmrzs = [0, 0, 2, 1][idx % 4] if idx < 4 else rng.randint(0, 4)
+    numorp = [0, 3, 0, 1, 2, 0, 4, 1][idx % 8] if idx < 8 else rng.randint(0, 5)
+    ncmrzs = [0, 2, 2, 1, 3, 2, 3, 4][idx % 8] if idx < 8 else rng.randint(0, 4)
     d.twoD["NUMORP"], d.twoD["NCMRZS"] = numorp, ncmrzs
     for k in dif3d.FILE_SPEC_3D_PARAMS:
         d.threeD[k] = gf(rng)
     if numorp:
         d.fourD = {f"OMEGA{e}": gf(rng) for e in range(1, numorp + 1)}
     if ncmrzs:
-        d.fiveD = {f"ZCMRC{e}": gf(rng) for e in range(1, ncmrzs + 1)}
-        d.fiveD.update({f"NZINTS{e}": rng.randint(1, 40) for e in range(1, ncmrzs + 1)})
+        # the caller's dict order is not the record's field order: grouped (as the reader builds it), region by
+        # region, reversed, or arbitrary
+        z = {f"ZCMRC{e}": gf(rng) for e in range(1, ncmrzs + 1)}
+        n = {f"NZINTS{e}": rng.randint(1, 40) for e in range(1, ncmrzs + 1)}
+        style = ["grouped", "by-region", "reversed", "ints-first"][idx % 4] if idx < 8 else rng.choice(
+            ["grouped", "by-region", "reversed", "ints-first", "shuffled"])
+        if style == "grouped":
+            items = list(z.items()) + list(n.items())
+        elif style == "by-region":
+            items = [kv for e in range(1, ncmrzs + 1) for kv in ((f"ZCMRC{e}", z[f"ZCMRC{e}"]), (f"NZINTS{e}", n[f"NZINTS{e}"]))]
+        elif style == "reversed":
+            items = list(reversed(list(z.items()) + list(n.items())))
+        elif style == "ints-first":
+            items = list(n.items()) + list(z.items())
+        else:
+            items = list(z.items()) + list(n.items())
+            rng.shuffle(items)
+        d.fiveD = dict(items)
+        if numorp and style != "grouped":
+            d.fourD = dict(reversed(list(d.fourD.items())))
     return d
 
 
@@ -1066,7 +1197,9 @@ def gen_isotxs(rng, asc, idx, gam=False):
     else:
         lib.neutronVelocity = garr(rng, ng)
         lib.neutronEnergyUpperBounds = garr(rng, ng)
-    names = rng.sample(["U235", "U238", "PU239", "FE56", "NA23", "O16", "C", "B10", "ZR90", "NI58"], rng.randint(1, 4))
+    names = rng.sample(["U235", "U238", "PU239", "FE56", "NA23", "O16", "C", "B10", "ZR90", "NI58"],
+                       rng.randint(2, 4) if idx % 3 == 0 else rng.randint(1, 4))
+    hetero = idx % 3 == 0  # per-nuclide counts made pairwise different and the file-wide values their maxima
     from armi.nucDirectory import nuclideBases
 
     flagpool = [100, 101, 200, 300, 0, 102, 103, 1]
@@ -1093,6 +1226,9 @@ def gen_isotxs(rng, asc, idx, gam=False):
         for k in ("nalph", "np", "n2n", "nd", "nt"):
             nmd[k] = rng.choice([0, 1])
         nmd["ltot"], nmd["ltrn"], nmd["strpd"] = rng.randint(1, 3), rng.randint(1, 3), rng.choice([0, 0, 1, 2])
+        if hetero:
+            k = names.index(nm)
+            nmd["ltot"], nmd["ltrn"], nmd["strpd"] = [(1, 3, 0), (3, 1, 2), (2, 2, 1), (1, 1, 0)][(k + idx // 3) % 4]
         flags = rng.sample(flagpool, nsb)
         nmd["scatFlag"] = np.array(flags, dtype=int)
         ords = [rng.choice([0, 1, 1]) for _ in range(nsb)]
@@ -1139,6 +1275,12 @@ def gen_isotxs(rng, asc, idx, gam=False):
                 micros.elasticScatter1stOrder = mats[n]
             else:
                 micros.higherOrderScatter[n] = mats[n]
+    if hetero:
+        # file-wide values = maxima of the per-nuclide / per-row ones (what a code writing the file would put there)
+        nmds = [(n.gamisoMetadata if gam else n.isotxsMetadata) for n in lib.nuclides]
+        md["maxScatteringOrder"] = max(max(m["ltot"], m["ltrn"]) for m in nmds)
+        md["maxUpScatterGroups"] = max([0] + [v - 1 for m in nmds for v in m["jj"].values()])
+        md["maxDownScatterGroups"] = max([0] + [m["jband"][k] - m["jj"][k] for m in nmds for k in m["jband"]])
     return lib
 
 
@@ -1150,40 +1292,58 @@ def gen_from_fixture(rel, modname, attrs_lib, attrs_nuc, rng, keep):
     return lib
 
 
-def gen_pmatrx(rng, asc, idx):
+def gen_pmatrx(rng, asc, idx, max_order=None):
+    """The shipped library with a nuclide subset and generated numbers; per-nuclide record counts are heterogeneous
+    and (for at least one nuclide) strictly below the file-wide maximum: number of production-matrix orders
+    (nuclide heading maxScatteringOrder vs file maxScatteringOrder), activation records, heating records; the
+    dose-conversion record (absent from every shipped file) is switched on in every other container."""
     from armi.nuclearDataIO.cccc import pmatrx
     lib = pmatrx.readBinary(_fixture(FIX2 + "/AA.pmatrx"))
-    _subset(rng, lib, rng.randint(1, 4))
+    _subset(rng, lib, rng.randint(2, 4) if idx % 4 else rng.randint(1, 4))
     for a in ("neutronEnergyUpperBounds", "gammaEnergyUpperBounds", "neutronDoseConversionFactors", "gammaDoseConversionFactors"):
         v = getattr(lib, "_" + a, None)
         if v is not None:
             setattr(lib, "_" + a, _rescale(rng, np.asarray(v, dtype=float)))  # the private slot of the write-once property
     md = lib.pmatrxMetadata
+    ngn, ngg = md["numNeutronGroups"], md["numGammaGroups"]
     for k in ("minimumNeutronEnergy", "minimumGammaEnergy"):
         md[k] = gf(rng)
     for k in ("numberCollapsingSpatialRegions", "maxNumberOfCompositions", "maxMaterials", "maxNumberOfRegions",
               "maxNumberOfCollapsingRegions", "_dummy1", "_dummy2"):
         md[k] = gi(rng, asc)
-    for nuc in lib.nuclides:
+    # optional file-level record: dose conversion factors
+    if idx % 2 == 1:
+        md["hasDoseConversionFactor"] = True
+        lib._neutronDoseConversionFactors = garr(rng, ngn)
+        lib._gammaDoseConversionFactors = garr(rng, ngg)
+    # production-matrix orders: file maximum M, per-nuclide orders 0..M, one nuclide at M, one strictly below
+    nucs = lib.nuclides
+    # (a third order is written but cannot be read back: finding pmatrx-production-matrix-order-3, probed separately)
+    M = max_order if max_order else ([2, 2, 1, 2][idx % 4] if idx < 8 else rng.randint(1, 2))
+    orders = [rng.randint(0, M) for _ in nucs]
+    if len(nucs) >= 2:
+        orders[0], orders[1] = M, rng.randint(0, M - 1)
+    rng.shuffle(orders)
+    md["maxScatteringOrder"] = M
+    for nuc, order in zip(nucs, orders):
         nmd = nuc.pmatrxMetadata
         nmd["collapsingRegionNumber"] = gi(rng, asc)
-        for a in ("neutronHeating", "neutronDamage", "gammaHeating", "isotropicProduction", "linearAnisotropicProduction"):
+        for a in ("neutronHeating", "neutronDamage", "gammaHeating"):
             setattr(nuc, a, _rescale(rng, getattr(nuc, a)))
-        # optional records on/off
-        if idx % 3 == 1 and nmd["hasGammaHeating"]:
+        nmd["maxScatteringOrder"] = order
+        nuc.isotropicProduction = garr(rng, (ngg, ngn)) if order >= 1 else None
+        nuc.linearAnisotropicProduction = garr(rng, (ngg, ngn)) if order >= 2 else None
+        nuc.nOrderProductionMatrix = {k: garr(rng, (ngg, ngn)) for k in range(3, order + 1)}
+        # optional records on/off, nuclide by nuclide
+        if rng.random() < 0.35 and nmd["hasGammaHeating"]:
             nmd["hasGammaHeating"] = False
             nuc.gammaHeating = None
-        if idx % 3 == 2 and nmd["hasNeutronHeatingAndDamage"]:
+        if rng.random() < 0.35 and nmd["hasNeutronHeatingAndDamage"]:
             nmd["hasNeutronHeatingAndDamage"] = False
             nuc.neutronHeating = nuc.neutronDamage = None
-        if idx % 2 == 1 and nmd["maxScatteringOrder"] > 1:
-            nmd["maxScatteringOrder"] = 1
-            nuc.linearAnisotropicProduction = None
-            nuc.nOrderProductionMatrix = {}
         # activation cross-section records (numberNeutronXS > 0)
         nact = rng.choice([0, 0, 1, 2, 3])
         if nact:
-            ngn = md["numNeutronGroups"]
             nmd["numberNeutronXS"] = nact
             nmd["activationXS"] = [garr(rng, ngn) for _ in range(nact)]
             nmd["activationMT"] = [rng.choice([16, 17, 102, 103, 107]) for _ in range(nact)]
@@ -1214,8 +1374,16 @@ def gen_dlayxs(rng, asc, idx):
     # trailing 4-character pad words of the spectra record: the reader sizes them from (numBytes - byteCount) // 4
     npad = [3, 0, 1, 7, 2, 12][idx % 6] if idx < 6 else rng.randint(0, 9)
     md["dummy2"] = np.array([rand_text(rng, 4) or "PAD" for _ in range(npad)]) if npad else []
-    for k, v in d.items():
+    # families per nuclide (NKFAM) heterogeneous and below the file's precursor-group count in every other container:
+    # the yield record of nuclide i holds NKFAM(i) vectors, the rest of its (6 x G) table is not stored
+    nk = [int(x) for x in md["nkfam"]]
+    if idx % 2 == 1:
+        nk = [rng.randint(1, d.numPrecursorGroups) for _ in nk]
+        nk[rng.randrange(len(nk))] = rng.randint(1, d.numPrecursorGroups - 1)
+        md["nkfam"] = np.array(nk)
+    for (k, v), nki in zip(d.items(), nk):
         v.delayNeutronsPerFission = np.abs(garr(rng, v.delayNeutronsPerFission.shape)) + 1.0
+        v.delayNeutronsPerFission[nki:, :] = 0.0
         # per-nuclide spectra/decay constants are not stored: they are derived from the family tables on reading
         for ii, family in enumerate(d.nuclideFamily[k]):
             v.precursorDecayConstants[ii] = md["precursorDecayConstants"][family - 1]
@@ -1244,11 +1412,76 @@ def gen_compxs(rng, asc, idx):
     return lib
 
 
+# --------------------------------------------------------------------------- dict insertion order is not data
+def shuffle_dicts(rng, obj, _seen=None, _depth=0):
+    """Re-insert the items of every plain dict (and of the dict behind every metadata object) reachable from a data
+    container in a shuffled order, in place. The field sequence of a record is fixed by the format, never by the order
+    in which the caller filled its dicts. Ordered containers whose order IS data (the DLAYXS nuclide table, the
+    libraries' label lists) are left alone. Returns the number of dicts re-ordered."""
+    import collections
+
+    if _seen is None:
+        _seen = set()
+    if id(obj) in _seen or _depth > 8:
+        return 0
+    _seen.add(id(obj))
+    n = 0
+    if isinstance(obj, dict):
+        if type(obj) in (dict, collections.OrderedDict) and len(obj) > 1:
+            items = list(obj.items())
+            rng.shuffle(items)
+            obj.clear()
+            obj.update(items)
+            n += 1
+        for v in list(obj.values()):
+            n += shuffle_dicts(rng, v, _seen, _depth + 1)
+    elif isinstance(obj, (list, tuple)):
+        for v in obj[:200]:
+            if not isinstance(v, (int, float, str, np.generic)):
+                n += shuffle_dicts(rng, v, _seen, _depth + 1)
+    elif (type(obj).__module__ or "").startswith("armi.nuclearDataIO"):
+        for k, v in list(vars(obj).items()):
+            if k in ("container", "parent", "_base", "_lib") or isinstance(v, (np.ndarray, str, int, float, type(None))):
+                continue
+            n += shuffle_dicts(rng, v, _seen, _depth + 1)
+    return n
+
+
+def build_container(fmt, seed, asc, idx):
+    """generator + (for odd idx) shuffled dict insertion order; the same for a run and for its replay"""
+    import random
+
+    rng = random.Random(seed)
+    data = fmt.gen(rng, asc, idx)
+    shuffled = 0
+    if idx % 2 == 1 and not isinstance(data, np.ndarray):
+        shuffled = shuffle_dicts(rng, data)
+    return data, shuffled
+
+
 # --------------------------------------------------------------------------- 5. the format table
+def schema_of(name):
+    """(schema name in Model/Cccc.lean `Schema.byName`, values that are not in the file) for a format-table entry"""
+    base = name.split("-")[0]
+
+    def env0(data):
+        if base in ("NHFLUX", "NAFLUX"):
+            return {"variantFlag": int(bool(data.metadata["variantFlag"])),
+                    "numDataSetsToRead": int(data.metadata["numDataSetsToRead"])}
+        if base == "DLAYXS":
+            md = data.metadata
+            return {"labelLength": len(md["label"]), "numPad": 0 if md["dummy2"] is None else len(md["dummy2"]),
+                    "numPrecursorGroups": int(data.numPrecursorGroups)}
+        return {}
+
+    return base, env0
+
+
 class Fmt:
     def __init__(self, name, gen, write, read, fixture=None, fixture_ascii=False, ascii_api=True, reader_finding=None,
                  few=False):
         self.name, self.gen, self.write, self.read, self.few = name, gen, write, read, few
+        self.schema, self.env0 = schema_of(name)
         self.fixture, self.fixture_ascii, self.ascii_api = fixture, fixture_ascii, ascii_api
         self.reader_finding = reader_finding
 
@@ -1313,6 +1546,8 @@ def formats():
         _stream_fmt("NHFLUX-VARIANT", "nhflux", "NhfluxStreamVariant",
                     lambda rng, asc, idx: gen_nhflux(rng, asc, idx, variant=True), FIX1 + "/simple_hexz.nhflux.variant"),
         _stream_fmt("NAFLUX", "nhflux", "NafluxStream", gen_nhflux),
+        _stream_fmt("NAFLUX-VARIANT", "nhflux", "NafluxStreamVariant",
+                    lambda rng, asc, idx: gen_nhflux(rng, asc, idx, variant=True)),
         _stream_fmt("LABELS", "labels", "LabelsStream", gen_labels, FIX1 + "/labels.binary"),
         _stream_fmt("PWDINT", "pwdint", "PwdintStream", gen_pwdint, FIX1 + "/simple_cartesian.pwdint"),
         _stream_fmt("RTFLUX", "rtflux", "RtfluxStream", gen_rtflux, FIX1 + "/simple_cartesian.rtflux"),
@@ -1341,6 +1576,32 @@ def overflow_cause(tr):
     return None
 
 
+class ReaderStuck(Exception):
+    pass
+
+
+@contextlib.contextmanager
+def time_limit(seconds):
+    """A reader that takes a count from a misplaced header value may try to read 10**9 fields: give up after
+    `seconds` (an exception in the reading code, judged like any other read failure)."""
+    import signal
+
+    def on_alarm(_sig, _frm):
+        raise ReaderStuck(f"the reader did not finish within {seconds} s")
+
+    try:
+        old = signal.signal(signal.SIGALRM, on_alarm)
+    except ValueError:  # not in the main thread
+        yield
+        return
+    signal.alarm(seconds)
+    try:
+        yield
+    finally:
+        signal.alarm(0)
+        signal.signal(signal.SIGALRM, old)
+
+
 def roundtrip_case(ctx, fmt, data, asc, workdir, tag, case, jobs, origin="generated", original_bytes=None):
     """write -> read -> write with recording classes; oracle clauses (ii)-(iv); queues (i) for the Lean replay."""
     mode_w, mode_r = ("w", "r") if asc else ("wb", "rb")
@@ -1357,6 +1618,12 @@ def roundtrip_case(ctx, fmt, data, asc, workdir, tag, case, jobs, origin="genera
         except Exception as e:  # noqa
             ctx.fail(f"{key0}-write-raises", "a well-formed container can be written", case, observed=repr(e)[:300])
             return None
+    try:
+        # (the large-record entries exist for the chunked record writer; their formats' schemas are replayed on the
+        # plain entries, and in the thorough tier on these too)
+        trw.env0 = None if (fmt.few and not ctx.thorough) else fmt.env0(data)
+    except Exception:  # noqa  (a container the schema's extra values cannot be taken from: oracle only)
+        trw.env0 = None
     A = canon(data)
     mut = changed_by_writer(A0, A)
     if mut:
@@ -1377,7 +1644,7 @@ def roundtrip_case(ctx, fmt, data, asc, workdir, tag, case, jobs, origin="genera
                      observed=str(fr)[:200])
     with common.quiet():
         try:
-            with recording(mode_r) as trr:
+            with recording(mode_r) as trr, time_limit(ctx.pick(120, 300)):
                 data2 = fmt.read(p1, asc, like=data)
         except Exception as e:  # noqa
             if _SPARSE_VIOLATIONS:
@@ -1408,7 +1675,9 @@ def roundtrip_case(ctx, fmt, data, asc, workdir, tag, case, jobs, origin="genera
                  "when a record is closed the reader's byteCount equals the payload size the writer declared", case,
                  observed=[{"record": i, "byteCount": bc, "declared": n} for i, bc, n in acc[:3]])
     B = canon(data2)
-    df = first_diff(A, B)
+    # the data read == the data handed to the writer (A0; empty slots may only come back as the reader's documented
+    # defaults: no phantom records), and == the container as the writer left it (A)
+    df = first_diff(A, B) or first_diff(A0, B, defaults_ok=True)
     if df:
         ctx.fail(f"ascii-{fmt.name.lower()}-{origin}-{cause}" if cause else f"{key0}-data-readback",
                  "the data read equal the data written", case,
@@ -1443,10 +1712,73 @@ def _first_byte_diff(a, b):
     return {"offset": n, "len": [len(a), len(b)], "got": a[n:n + 16].hex(), "want": b[n:n + 16].hex()}
 
 
+def trace_wf(trw, asc):
+    """`File.WF` of the schema theorems, evaluated on the real writer's trace: every value inside its routine's domain
+    (ints 32 bit / <= 9 digits in ASCII, reals finite and with a 2-digit exponent in ASCII, text within its field and
+    without trailing blanks, every record's declared count inside the count field)"""
+    for e in trw.ev:
+        k = e[0]
+        if k in ("i", "close"):
+            if not (-2 ** 31 <= e[1] < 2 ** 31) or (asc and abs(e[1]) > 999999999):
+                return False
+        elif k == "l":
+            if asc or not (-2 ** 63 <= e[1] < 2 ** 63):
+                return False
+        elif k in ("f", "d") and asc:
+            x = frombits64(e[1])
+            if x != x or x in (float("inf"), float("-inf")) or len(" {:+.16E}".format(x)) != 24:
+                return False
+        elif k == "s":
+            if len(e[2].encode("utf-8")) > e[1] or e[2] != e[2].rstrip() or any(ord(c) > 127 for c in e[2]):
+                return False
+    return True
+
+
+def schema_request(fmt, asc, trw):
+    env = ";".join(f"{k}={int(v)}" for k, v in (trw.env0 or {}).items()) or "-"
+    toks = ",".join(field_token(f) for fields, _c in trw.records() for f in fields) or "-"
+    return f"schema {fmt.schema} {'a' if asc else 'b'} {env} {toks}"
+
+
+def _locate(trw, asc, offset):
+    """record number / field number (0-based) of a byte offset of a binary file, from the writer's trace"""
+    if asc:
+        return None
+    pos = 0
+    for r, (fields, cnt) in enumerate(trw.records()):
+        if offset < pos + 4:
+            return {"record": r, "field": "leading count"}
+        p = pos + 4
+        for k, f in enumerate(fields):
+            w = {"i": 4, "l": 8, "f": 4, "d": 8}.get(f[0]) or f[1]
+            if offset < p + w:
+                return {"record": r, "field": k, "kind": f[0]}
+            p += w
+        if offset < p + 4:
+            return {"record": r, "field": "trailing count"}
+        pos = p + 4
+    return {"record": "beyond the last record"}
+
+
 def replay_jobs(ctx, jobs):
-    """(i): every writer trace through the Lean encoder, compared with the real file byte for byte."""
+    """(i): every writer trace through the Lean encoder, compared with the real file byte for byte - record by record
+    (`recb`/`reca`: the model's field codecs and framing) and as a whole through the format's SCHEMA (`schema`: which
+    records exist, which fields they hold in which order, every count and loop bound, computed by the model from the
+    header values alone)."""
     todo = [(j, in_model_domain(j[3], j[1])) for j in jobs]
-    mb = model_bytes([(j[3], j[1]) for j, ok in todo if ok])
+    sreq = [schema_request(j[0], j[1], j[3]) for j, ok in todo if ok and j[3].env0 is not None]
+    sout = []
+    try:
+        mb = model_bytes([(j[3], j[1]) for j, ok in todo if ok], sreq, sout)
+    except (common.Infra, Exception) as e:  # noqa
+        # the schema walk is guarded inside the driver (fuel, "short"); should the driver still fail or time out on a
+        # trace that does not fit the schema, the record-level replay is repeated alone and the schema replay of every
+        # file of this batch counts as a disagreement (model could not be evaluated) instead of an infrastructure error
+        if not sreq:
+            raise
+        sout = [f"<driver failed: {str(e)[:80]}>"] * len(sreq)
+        mb = model_bytes([(j[3], j[1]) for j, ok in todo if ok])
+    sresp = iter(sout)
     it = iter(mb)
     for (fmt, asc, case, trw, b1), ok in todo:
         if not ok:
@@ -1454,13 +1786,33 @@ def replay_jobs(ctx, jobs):
             continue
         m = next(it)
         ctx.evaluations += len(trw.records())
+        mode = "ascii" if asc else "binary"
         if m != b1:
-            ctx.disagree(f"Cccc.File.write vs {fmt.name} {'ascii' if asc else 'binary'} writer", case,
+            ctx.disagree(f"Cccc.File.write vs {fmt.name} {mode} writer", case,
                          None if m is None else _first_byte_diff(m, b1), len(b1))
+        if trw.env0 is None:
+            continue
+        r = next(sresp)
+        ctx.evaluations += 1
+        ctx.count(f"schema replays {fmt.schema} {mode}")
+        ctx.count("schema files: theorem hypothesis File.WF " + ("holds" if trace_wf(trw, asc) else
+                                                                 "fails (out-of-domain value; model = code still compared)"))
+        if _NO_MODEL:
+            continue
+        hexs_, _, left = r.partition(";")
+        try:
+            sb = bytes.fromhex(hexs_) if hexs_ != "-" else b""
+        except ValueError:
+            sb = None  # "short": the schema asks for more values than the writer produced; "reject"; driver failure
+        if sb is None or sb != b1 or left != "0":
+            d = None if sb is None else _first_byte_diff(sb, b1)
+            ctx.disagree(f"Cccc.Schema.{fmt.schema.lower()} (schemaFile) vs {fmt.name} {mode} writer", case,
+                         {"model": r[:40] if sb is None else d, "values left over": left,
+                          "at": None if d is None else _locate(trw, asc, d["offset"])}, len(b1))
 
 
 def run_formats(ctx, workdir):
-    per = ctx.pick(8, 150)
+    per = ctx.pick(6, 150)
     only = os.environ.get("C09_ONLY")
     jobs = []
     for fmt in formats():
@@ -1469,14 +1821,13 @@ def run_formats(ctx, workdir):
         for idx in range(ctx.pick(2, 6) if fmt.few else per):
             for asc in (False, True):
                 seed = ctx.rng.getrandbits(48)
-                import random
-
-                rng = random.Random(seed)
                 case = {"format": fmt.name, "ascii": asc, "gen_seed": seed, "idx": idx}
                 ctx.crumb(dict(case, step="building the container (may read a shipped fixture)"))
                 try:
                     with common.quiet():
-                        data = fmt.gen(rng, asc, idx)
+                        data, shuffled = build_container(fmt, seed, asc, idx)
+                    if shuffled:
+                        ctx.count("containers with shuffled dict insertion order")
                 except Exception as e:  # noqa
                     # generators call real code (fixture readers, nuclide IO helpers); on the unchanged tree they succeed
                     ctx.fail(f"{fmt.name.lower()}-container-construction-raises",
@@ -1485,7 +1836,7 @@ def run_formats(ctx, workdir):
                     continue
                 roundtrip_case(ctx, fmt, data, asc, workdir, f"{fmt.name}-{idx}-{int(asc)}", case, jobs)
                 ctx.case((fmt.name, asc, seed), sample={"container": case} if idx == 0 and not asc and len(ctx.samples) < 5 else None)
-        if len(jobs) >= 40:
+        if len(jobs) >= 120:
             replay_jobs(ctx, jobs)
             jobs.clear()
     replay_jobs(ctx, jobs)
@@ -1545,6 +1896,27 @@ def run_fixtures(ctx, workdir):
             if len(jobs) > before and len(jobs[-1][4]) > limit:
                 ctx.count("fixture files too large for the quick Lean replay (oracle only)")
                 jobs.pop()
+        # the same file read again, every data dict re-inserted in a shuffled order: the re-written bytes do not change
+        import random
+
+        with common.quiet():
+            try:
+                d3 = fmt.read(local, fmt.fixture_ascii)
+                nsh = shuffle_dicts(random.Random(ctx.rng.getrandbits(32)), d3)
+                p4 = os.path.join(workdir, f"fx-{fmt.name}-shuffled")
+                fmt.write(d3, p4, fmt.fixture_ascii)
+                b4 = open(p4, "rb").read()
+            except Exception as e:  # noqa
+                b4 = None
+                ctx.fail(f"{fmt.name.lower()}-fixture-shuffled-rewrite-raises",
+                         "a container whose dicts were filled in another order can be written", case, observed=repr(e)[:300])
+        if b4 is not None:
+            ctx.count("fixtures re-written after shuffling their dicts")
+            if b4 != orig:
+                ctx.fail(f"{fmt.name.lower()}-fixture-shuffled-rewrite",
+                         "the field sequence of a record does not depend on the insertion order of the caller's dicts: "
+                         "the shipped file is reproduced byte for byte", dict(case, dicts_shuffled=nsh),
+                         observed=_first_byte_diff(b4, orig))
         ctx.case(("fixture", fmt.name), sample={"fixture": fmt.fixture, "bytes": len(orig)} if fmt.name == "GEODST" else None)
     replay_jobs(ctx, jobs)
 
@@ -1558,7 +1930,8 @@ def run_announced_records(ctx, workdir):
     from armi.nuclearDataIO.cccc import fixsrc, geodst, isotxs, pmatrx
 
     rng = random.Random(ctx.rng.getrandbits(32))
-    ctx.crumb({"stream": "announced-record probes (FIXSRC public reader, GEODST IGOM 1..3, PMATRX activation, ISOTXS NSBLOK 2)"})
+    ctx.crumb({"stream": "announced-record probes (FIXSRC public reader, GEODST IGOM 1..3, PMATRX activation / order 3, "
+                         "COMPXS 2D optional parts, ISOTXS NSBLOK 2)"})
     # FIXSRC: the public reader
     arr = garr(rng, (2, 3, 2, 2))
     p = os.path.join(workdir, "fixsrc.pub")
@@ -1616,6 +1989,51 @@ def run_announced_records(ctx, workdir):
         ctx.fail("pmatrx-activation-record", "PMATRX nuclide with numberNeutronXS > 0 is written and read back",
                  {"nuclide": nuc.pmatrxMetadata["nuclideId"] if nuc.pmatrxMetadata["nuclideId"] else lib.nuclideLabels[0]},
                  observed=obs)
+    # PMATRX nuclides with three or more production-matrix orders (heading maxScatteringOrder >= 3)
+    for M in (3, 4):
+        lib = gen_pmatrx(rng, False, 2, max_order=M)
+        p = os.path.join(workdir, f"pmatrx-order-{M}")
+        with common.quiet():
+            try:
+                pmatrx.writeBinary(lib, p)
+                back = pmatrx.readBinary(p)
+                df = first_diff(canon(lib), canon(back))
+                obs = None if df is None else str(df)[:200]
+            except Exception as e:  # noqa
+                obs = repr(e)[:100] + " ... " + repr(e).replace("\\n", " ")[-120:]
+        ctx.count("announced-record probes")
+        if obs is not None:
+            ctx.fail("pmatrx-production-matrix-order-3", "a PMATRX nuclide with 3 or more production-matrix orders "
+                     "is written and read back", {"file maxScatteringOrder": M,
+                                                  "orders": [n.pmatrxMetadata["maxScatteringOrder"] for n in lib.nuclides]},
+                     observed=obs)
+    # COMPXS: the optional parts of the 2D record that the header can announce (delayed-neutron families, file-wide chi)
+    from armi.nuclearDataIO.cccc import compxs
+
+    for what in ("delayed-families", "file-wide-chi"):
+        lib = gen_compxs(rng, False, 0)
+        cm = lib.compxsMetadata
+        ng = cm["numGroups"]
+        if what == "delayed-families":
+            cm["numDelayedFam"] = 2
+            cm["delayedChi"] = garr(rng, (2, ng))
+            cm["delayedDecayConstant"] = garr(rng, 2)
+        else:
+            cm["fileWideChiFlag"] = 1
+            cm["fileWideChi"] = garr(rng, (ng, 1))
+        p = os.path.join(workdir, "compxs-" + what)
+        with common.quiet():
+            try:
+                compxs.writeBinary(lib, p)
+                back = compxs.readBinary(p)
+                df = first_diff(canon(lib.compxsMetadata), canon(back.compxsMetadata))
+                obs = None if df is None else str(df)[:200]
+            except Exception as e:  # noqa
+                obs = repr(e)[:100] + " ... " + repr(e).replace("\\n", " ")[-120:]
+        ctx.count("announced-record probes")
+        if obs is not None:
+            ctx.fail("compxs-2d-record-" + what, "COMPXS whose header announces " + what + " is written and read back",
+                     {"numDelayedFam": cm["numDelayedFam"], "fileWideChiFlag": cm["fileWideChiFlag"]}, observed=obs)
     # ISOTXS scatter sub-blocking (NSBLOK > 1) and Legendre blocks holding more than one order
     for what in ("subblocking", "multi-order"):
         for _try in range(40):
@@ -1846,6 +2264,9 @@ def run_float_hypothesis(ctx):
         sub += (n >> 52) & 0x7FF == 0 and n & ((1 << 52) - 1) != 0
         threedig += len(text) != 24
         req.append(f"afloat {n}"); impl.append(text.encode().hex()); cases.append(("afloat", n, text))
+        # the accepted domain of the ASCII real field (asciiReal.ok, decidable) vs "the text is _floatLength wide"
+        req.append(f"adom d {n}"); impl.append("T" if len(text) == 24 else "F")
+        cases.append(("adom-real", n, text))
         if len(text) == 24 and infield < 600:
             infield += 1
             buf = io.StringIO()
@@ -1918,7 +2339,10 @@ def run(ctx):
                      "the containers of the announced-record probes can be built", {}, observed=repr(e)[:300])
     ctx.rule = ("one case = one record of a generated field-type sequence (int/long/float/double/string/list/matrix, "
                 "binary and ASCII), one generated container of one format in one encoding (written, read, re-written "
-                "through recording record classes; its whole trace replayed through the Lean encoder), one shipped "
+                "through recording record classes; its whole trace replayed through the Lean encoder record by record "
+                "and through the format's Lean schema as a whole; per-item counts heterogeneous and below the "
+                "file-wide maxima, every optional record the readers accept switched on, dict insertion order "
+                "shuffled for odd indices), one shipped "
                 "fixture file, or one point of the exhaustive small grids (getBlockBandwidth arguments, matrix shapes). "
                 "distinct = distinct field-kind sequences / generator seeds / grid points; non-trivial = more than one "
                 "field or a real file.")
@@ -1998,7 +2422,7 @@ def replay(ctx, payload):
         with common.scratch_dir() as workdir, quiet_armi(), guarded_sparse():
             if isinstance(case, dict) and "gen_seed" in case:
                 fmt = next(f for f in formats() if f.name == case["format"])
-                data = fmt.gen(random.Random(case["gen_seed"]), case["ascii"], case["idx"])
+                data, _ = build_container(fmt, case["gen_seed"], case["ascii"], case["idx"])
                 roundtrip_case(sub, fmt, data, case["ascii"], workdir, "replay", case, [])
             elif isinstance(case, dict) and "fixture" in case:
                 os.environ["C09_ONLY"] = case["format"]
